@@ -104,6 +104,7 @@ class StreamResult:
         self.distinct = 0
         self.disagreements = []      # model vs crate
         self.oracle_failures = []    # crate vs property oracle (python)
+        self.known = {}              # known-finding id -> count of matching disagreements
         self.errors = []
         self.hist = {}
         self.samples = []
@@ -152,7 +153,7 @@ def run_explicit(lines, modes, model_cmd, tag="x"):
     return outs, err
 
 
-def run_stream(name, lines, modes=("off",), oracles=(), spec=False, exhaustive=False, pool=None, max_report=20):
+def run_stream(name, lines, modes=("off",), oracles=(), spec=False, exhaustive=False, pool=None, max_report=20, known=None):
     """Run one stream; compare model (or spec) with the crate in each overflow mode; apply oracles to crate lines."""
     t0 = time.time()
     res = StreamResult(name)
@@ -170,6 +171,7 @@ def run_stream(name, lines, modes=("off",), oracles=(), spec=False, exhaustive=F
         if own_pool:
             pool.shutdown()
     seen = set()
+    rerun = {}
     for (idx, outs, err), (_, _, clines, _, _) in zip(results, jobs):
         if err:
             res.errors.append(err)
@@ -193,20 +195,10 @@ def run_stream(name, lines, modes=("off",), oracles=(), spec=False, exhaustive=F
                     cblocks = outs[m][pos[m]:pos[m] + nblocks]
                     pos[m] += nblocks
                     if cblocks != mblocks:
-                        # re-run differing blocks explicitly
                         exp = expand_range(req)
                         for bi, (mb, cb) in enumerate(zip(mblocks, cblocks)):
-                            if mb != cb and len(res.disagreements) < max_report:
-                                _, _, elines = exp[bi]
-                                eouts, eerr = run_explicit(elines, [m], model_cmd, tag="rerun")
-                                if eerr:
-                                    res.errors.append(eerr)
-                                    continue
-                                for er, mo, co in zip(elines, eouts["model"], eouts[m]):
-                                    if mo != co:
-                                        res.disagreements.append(Disagreement(name, m, er, mo, co, "spec" if spec else "model"))
-                                        if len(res.disagreements) >= max_report:
-                                            break
+                            if mb != cb and bi < len(exp):
+                                rerun.setdefault(m, []).extend(exp[bi][2])
                         if len(mblocks) != len(cblocks):
                             res.errors.append("block count differs for %s" % req)
                 continue
@@ -231,13 +223,33 @@ def run_stream(name, lines, modes=("off",), oracles=(), spec=False, exhaustive=F
                 pos[m] += 1
                 res.evaluations += 1
                 if mo != co and not (spec and mo == "bad-op"):
-                    if len(res.disagreements) < max_report:
+                    k = known(req, co) if known else None
+                    if k:
+                        res.known[k] = res.known.get(k, 0) + 1
+                    elif len(res.disagreements) < max_report:
                         res.disagreements.append(Disagreement(name, m, req, mo, co, "spec" if spec else "model"))
                 for orc in oracles:
                     msg = orc(req, co)
                     if msg and len(res.oracle_failures) < max_report:
                         res.oracle_failures.append({"stream": name, "overflow_checks": m, "request": req, "crate": co,
                                                     "oracle": msg})
+    # differing @range blocks: re-run their iterations explicitly (in parallel) to find the individual inputs
+    for m, elines in rerun.items():
+        ejobs = [("rerun_" + name.replace("/", "_").replace(" ", "_"), i, c, [m], model_cmd)
+                 for i, c in enumerate(chunk(elines, NCPU))]
+        with concurrent.futures.ThreadPoolExecutor(max_workers=NCPU) as p2:
+            eres = list(p2.map(_run_chunk, ejobs))
+        for (idx, eouts, eerr), (_, _, clines, _, _) in zip(eres, ejobs):
+            if eerr:
+                res.errors.append(eerr)
+                continue
+            for er, mo, co in zip(clines, eouts["model"], eouts[m]):
+                if mo != co:
+                    k = known(er, co) if known else None
+                    if k:
+                        res.known[k] = res.known.get(k, 0) + 1
+                    elif len(res.disagreements) < max_report:
+                        res.disagreements.append(Disagreement(name, m, er, mo, co, "spec" if spec else "model"))
     res.wall = time.time() - t0
     return res
 
